@@ -220,6 +220,35 @@ def _random_case(rng: random.Random, emb: str) -> dict | None:
             "maxiter": rng.randint(1, 4), "init": rng.choice(inits)}
 
 
+def wide_case(rng: random.Random, emb: str) -> dict:
+    """A die much wider than tall, few modules on it (room to allocate more than their area) and the extreme trade-off
+    alpha = 1 or 0.999 (no dispersion term): the bounds of the centre variables are then all that keeps the module
+    centres in the die."""
+    w, h = rng.choice([(4, 1), (6, 1), (8, 1), (8, 2), (6, 2), (5, 1)])
+    W, H = w * U, h * U
+    mods = []
+    xs = rng.sample(range(w), min(w, rng.randint(2, 4)))
+    for i in xs:
+        mods.append({"kind": "soft", "area": round(rng.uniform(0.3, 0.9) * U * U * h / 2, 3),
+                     "center": [i * U + 2, H // 2]})
+    occupied = []
+    if rng.random() < 0.6:                                    # a fixed block at the right end
+        r = [W - U, 0, W, min(H, U)]
+        mods.append({"kind": "fixed", "rects": [r]})
+        occupied.append(r)
+    if rng.random() < 0.6:                                    # a movable hard square
+        x = rng.randrange(0, W - 2 * U, 2)
+        mods.append({"kind": "hard", "flip": 0, "rects": [[x, 0, x + U, min(H, U)]]})
+    rng.shuffle(mods)
+    n = len(mods)
+    order = list(range(1, n + 1))
+    rng.shuffle(order)
+    nets = [[rng.choice([1, 2]), [order[rng.randrange(j)], order[j]]] for j in range(1, n)]
+    return {"src": "rnd", "motif": "wide_alpha1", "emb": emb, "die": [W, H], "blk": [], "mods": mods, "nets": nets,
+            "thr": rng.choice([0.9, 0.95, 0.95]), "alpha": rng.choice([1, 1, 0.999]), "maxiter": rng.randint(1, 2),
+            "init": ["split", 2.0, rng.choice([w * h, 2 * w * h, w * h + 2])]}
+
+
 # ------------------------------------------------------------------------------------------------ real code
 def build_inputs(case: dict, emb):
     mods = {}
@@ -559,6 +588,9 @@ def run(ctx: Ctx) -> int:
     ctx.extra["extract_replays"] = len(sols)
     nrnd = 70 if quick else 1500
     cases += [random_case(rng, EMB_ORDER[i % len(EMB_ORDER)]) for i in range(nrnd)]
+    nwide = 40 if quick else 500
+    cases += [wide_case(rng, EMB_ORDER[i % len(EMB_ORDER)]) for i in range(nwide)]
+    ctx.extra["cases_wide_alpha1_motif"] = nwide
     ctx.extra["cases_random"] = nrnd
     decide(ctx, cases)
     ctx.extra["embeddings"] = EMB_ORDER
